@@ -691,6 +691,47 @@ func (c *Ctx) dispatchTables(t *Tables) {
 					continue
 				}
 				done := false
+				// the arm selects the implementing function into a variable that is called after
+				// the arms join
+				for _, sb := range bb.Succs {
+					for pi, pb := range sb.Preds {
+						if pb != bb {
+							continue
+						}
+						for _, in := range sb.Instrs {
+							ph, ok := in.(*ssa.Phi)
+							if !ok {
+								break
+							}
+							var sc *ssa.Function
+							switch y := ph.Edges[pi].(type) {
+							case *ssa.Function:
+								sc = y
+							case *ssa.MakeClosure:
+								sc, _ = y.Fn.(*ssa.Function)
+							case *ssa.ChangeType:
+								sc, _ = y.X.(*ssa.Function)
+							}
+							if sc == nil {
+								continue
+							}
+							if seq, ok := t.RBuilt["fn:"+sc.Name()]; ok {
+								t.RBuilt[name] = seq
+								t.RBuiltP[name] = t.RBuiltP["fn:"+sc.Name()]
+								t.RCtx[name] = ctx
+								implOf[name] = sc
+								if ctx == "origin" {
+									t.RRet[name] = implReturnType(sc)
+								}
+								c.Touch(f)
+								done = true
+							}
+						}
+					}
+				}
+				if done {
+					break
+				}
 				for _, in := range bb.Instrs {
 					// table-style dispatch: the arm returns the implementing function
 					if ret, ok := in.(*ssa.Return); ok {
